@@ -285,3 +285,18 @@ def user_array(a, mode=None):
     if isinstance(a, np.ndarray):
         a.flags.writeable = False
     return a
+
+
+def definitive_failure(sname, status):
+    """True when the interface's status says infeasible/unbounded (not a numerical give-up)."""
+    st = str(status)
+    if sname in ('def', 'lpg'):
+        return st in ('2', '3')
+    if sname == 'ort':
+        return st in ('2', '3')
+    if sname == 'grb':
+        return st in ('3', '4', '5')
+    if sname == 'eco':
+        low = st.lower()
+        return ('infeasible' in low or 'unbounded' in low) and 'inaccurate' not in low
+    return False
